@@ -69,6 +69,57 @@ def rule1_attr(ctx, fl):
     ctx.floor('C01.1', 5)
 
 
+def rule15_stacksize(ctx, fl):
+    ctx.doc('C01.15', 'the thread runs on the stack its attribute asked for: the size handed to get_new_myth_thread_struct_stack in '
+            'myth_create_ex_body is attr->stacksize; the only other value is 0 (= pooled default stack), chosen only where attr is NULL '
+            '(or where the request was compared equal to something, e.g. the default) - any other rewrite of the request serves a '
+            'large-stack thread from the 128 KB pool and its start function overruns it')
+    v = ctx.view(NATIVE, roots=['myth_create_ex_body'],
+                 stops=('myth_queue_push', 'myth_queue_pop', 'get_new_myth_thread_struct_desc', 'get_new_myth_thread_struct_stack',
+                        'myth_init_ex_body', 'myth_make_context_empty', 'myth_make_context_voidcall') + lib.SPIN_STOPS, flavour=fl)
+    c = ctx.need_fn(v, 'myth_create_ex_body')
+    attr = c.param_named('attr')
+    sites = call_sites(c, 'get_new_myth_thread_struct_stack')
+    ctx.ob('C01.15', 'creation allocates the stack once', len(sites) == 1 and attr is not None, 'one stack allocation site', loc=c.loc)
+    nts = null_tests(c, attr) if attr is not None else []
+    for site in sites:
+        bad, nload = [], 0
+        stack, seen = [site.args[1]], set()
+        while stack:
+            r = stack.pop()
+            if isinstance(r, dict):
+                if const_int(r) != 0:
+                    bad.append('constant %s' % const_int(r))
+                continue
+            r = c.strip(r)
+            if r in seen:
+                continue
+            seen.add(r)
+            ins = c.insts.get(r)
+            if ins is None:
+                bad.append('value %s' % describe(c, r))
+            elif ins.op == 'load' and c.field(ins) == 'myth_thread_attr.stacksize' and same_value(c, c.ap(ins.ops[0]).root, attr):
+                nload += 1
+            elif ins.op == 'phi':
+                for val, b_ in ins.d['incoming']:
+                    if const_int(val) == 0:
+                        term = c.blocks[b_].insts[-1]
+                        on_null = any((br.block.id == b_ and nl == ins.block.id and nn != nl) or c.edge_dominates(br.block.id, nl, term)
+                                      for br, nn, nl in nts)
+                        on_eq = any(ic.op == 'icmp' and ic.pred == 'eq' and c.on_edge(ic.id, True, term) and
+                                    any(k in c.insts and c.insts[k].op == 'load' and c.field(c.insts[k]) == 'myth_thread_attr.stacksize'
+                                        for o in ic.ops if isinstance(o, str) for k in c.sources(o)) for ic in c.order)
+                        if not (on_null or on_eq):
+                            bad.append('0 chosen at %s although an attribute is given' % term.loc)
+                    else:
+                        stack.append(val)
+            else:
+                bad.append('computed by %s at %s' % (ins.op, ins.loc))
+        ctx.ob('C01.15', 'stack size = attr->stacksize (0 only without an attribute)', nload >= 1 and not bad,
+               'the requested stack size reaches the allocation unchanged', loc=site.loc, detail='; '.join(bad[:3]))
+    ctx.floor('C01.15', 2)
+
+
 # --------------------------------------------------------------------- C01.2
 NULLABLE = [('myth_create_ex_body', 'id'), ('myth_join_body', 'result'), ('myth_tryjoin_body', 'result')]
 
@@ -547,6 +598,7 @@ def run(ctx):
         ctx.doc('C01.12', 'native API forwarding: each public entry point of this property reaches the implementation of the same name with its parameters in order and returns its result (sibling slips such as trylock -> lock, signal -> broadcast, swapped arguments)')
         ctx.attempt(lib.native_forwarding, ctx, 'C01.12', fl, lambda n: n in ('myth_create', 'myth_create_ex', 'myth_join', 'myth_exit', 'myth_self', 'myth_equal') or n.startswith('myth_thread_attr_'), floor=8)
         ctx.attempt(rule1_attr, ctx, fl)
+        ctx.attempt(rule15_stacksize, ctx, fl)
         stops = ('myth_queue_push', 'myth_queue_pop', 'get_new_myth_thread_struct_desc',
                  'get_new_myth_thread_struct_stack', DESC_FREE, 'free_myth_thread_struct_stack',
                  'myth_get_current_env_noinline', 'myth_tls_tree_fini', 'myth_init_ex_body',
@@ -608,6 +660,8 @@ def run(ctx):
 SCHED = 'src/myth_sched_func.h'
 SPIN = 'src/myth_spinlock_func.h'
 MUTANTS = [
+    {'name': 'requests at least as large as the default are served from the pool of default stacks (seed6 C01/m1)', 'expect': 'C01.15',
+     'edits': [('src/myth_sched_func.h', "  size_t stack_size       = (attr ? attr->stacksize : 0);\n", "  size_t stack_size       = (attr ? attr->stacksize : 0);\n  if (stack_size >= g_attr.stacksize) stack_size = 0;\n")]},
     {'name': 'myth_thread_attr_setguardsize writes stacksize', 'expect': 'C01.13',
      'edits': [(SCHED, "  attr->guardsize = guardsize;", "  attr->stacksize = guardsize;")]},
     {'name': 'native myth_join forwards swapped-in NULL result pointer', 'expect': 'C01.12',
